@@ -403,7 +403,7 @@ Section C12Main.
      subscriber; regions are single transitions of the LTS, hence never overlap. *)
   Definition w_region (i : instr) : option sid :=
     match i with
-    | IWriteErr s | IKidWrite _ s _ | ICEWrite s _ | IHbSend s => Some s
+    | IWriteErr s | IKidWrite _ s _ _ | ICEWrite s _ | IHbSend s => Some s
     | _ => None
     end.
 
